@@ -906,9 +906,16 @@ class Effects:
         return res
 
     # ------------------------------------------------------------ registrations
-    def decode_registration(self, fn: FuncInfo, call: ast.Call) -> Registration:
+    def decode_registration(self, fn: FuncInfo, call: ast.Call, callable_expr: Optional[ast.AST] = None, at: Optional[ast.AST] = None) -> Registration:
+        """``callable_expr``/``at``: the callable was bound to a local first (``undo = partial(..)`` ... ``context(undo)``);
+        the registration is decoded from the bound expression and, when several definitions flow into one
+        ``context(undo)``, placed at the definition (the caller has shown that it always reaches the call)."""
         inf = self.inf
         reg = Registration(call, fn)
+        if callable_expr is not None:
+            reg.callable_expr = callable_expr
+        if at is not None:
+            reg.node = at
         ce = reg.callable_expr
         target = ce
         if isinstance(ce, ast.Call) and isinstance(ce.func, ast.Name) and ce.func.id == "partial" and ce.args:
